@@ -28,6 +28,11 @@ def _copy_tree(dst):
     for fn in os.listdir(os.path.join(root, "src")):
         if fn.endswith(".py"):
             shutil.copy2(os.path.join(root, "src", fn), os.path.join(dst, "src", fn))
+    if os.path.isdir(os.path.join(root, "docs")):          # documentation tables some rules compare the code with
+        os.makedirs(os.path.join(dst, "docs"))
+        for fn in os.listdir(os.path.join(root, "docs")):
+            if fn.endswith(".md"):
+                shutil.copy2(os.path.join(root, "docs", fn), os.path.join(dst, "docs", fn))
 
 
 def _run_one(m, base):
@@ -40,9 +45,8 @@ def _run_one(m, base):
         if m.get("patch"):
             r = subprocess.run(["git", "apply", "--unsafe-paths", "--directory=" + d, m["patch"]], cwd=d, capture_output=True, text=True)
             if r.returncode != 0:
-                r = subprocess.run(["patch", "-p1", "-s", "-i", m["patch"]], cwd=d, capture_output=True, text=True)
-                if r.returncode != 0:
-                    return m, "stale", "seeded patch no longer applies: " + (r.stdout + r.stderr)[-200:]
+                # no fuzzy fallback: a patch applied with fuzz can mean something else than what was confirmed
+                return m, "stale", "seeded patch no longer applies: " + (r.stdout + r.stderr)[-200:]
         edits = [] if (m.get("patch") or m.get("generated")) else (m.get("edits") or [(m["file"], m["find"], m["replace"])])
         for rel, find, repl in edits:
             p = os.path.join(d, rel)
